@@ -175,6 +175,9 @@ class Dispatcher:
                 return recv.m_add(*args)
             if name == "copy":
                 return SymSet(recv.members)
+            m = getattr(recv, "m_" + name, None)
+            if m is not None:
+                return m(*args, **kwargs)
             raise Unsupported("set.%s on symbolic set" % name)
         if isinstance(recv, SymInt):
             if name == "to_bytes":
